@@ -39,12 +39,12 @@ static std::string run_case(int mode, const std::vector<vf::u64> &tmpl, const st
     Value<C>        v = JSON::Parse((const C *)jb.p, (SizeT)jb.n);
     vf::ExactBuf<C> tb(tmpl);
     StringStream<C> ss;
+    StringStream<C> before; // the value as text BEFORE the first render touches it
+    if (mode == 1) v.Stringify(before);
     Template::Render((const C *)tb.p, (SizeT)tb.n, v, ss);
     std::string out = vf::fmt_units(ss.First(), ss.Length());
     if (mode == 1) {
         int                 bad = 0;
-        StringStream<C>     before;
-        v.Stringify(before);
         Array<Tags::TagBit> cache;
         StringStream<C>     s1;
         Template::Render((const C *)tb.p, (SizeT)tb.n, v, s1, cache);
